@@ -1,4 +1,5 @@
 import Model.Network
+import Proofs.VJP
 
 /-!
 # C16 — skip connections combine source and target inputs as configured
@@ -6,9 +7,13 @@ import Model.Network
 About `Network.addConnect` (`Network::connect`), `Network.skipInput` (the input a layer processes),
 `accumulate1`, and `Network.invertSkips` (which skip gradients `backward` adds to which layer).
 The derivative clause ("with additive accumulation every parameter gradient remains the exact
-derivative") rests on the adjoint theorems of C01 together with `invertSkips_complete` below (every
-skip contributes, none is lost or duplicated); on the implementation it is checked against central
-differences for chains, shared sources and self-skips.
+derivative"): `additive_skip_gradient_is_derivative` proves, for any network `head → (mid with an
+additive skip around it) → tail` of any depths whose layers have correct backward functions (C01), that
+the reverse walk in which the skip's source receives the gradient coming back through `mid` **plus** the
+gradient of the input the target processed is the transposed Jacobian — which is what the model's
+`addSkipGradient` does (`skip_source_receives_target_gradient`), for every connection listed by
+`invertSkips_complete` (none lost or duplicated).  On the implementation the gradients of chains,
+shared sources and self-skips are checked against central differences.
 -/
 
 set_option linter.unusedSectionVars false
@@ -55,7 +60,7 @@ variable {α : Type} [Scalar α]
     connection** -/
 theorem connect_never_discards (n n' : Network α) (infrom into : Nat) (h : n.addConnect infrom into = .ok n') :
     Assoc.find? n'.connect into = some infrom ∧
-    ∀ to from_, Assoc.find? n.connect to = some from_ → Assoc.find? n'.connect to = some from_ := by
+    ∀ tgt from_, Assoc.find? n.connect tgt = some from_ → Assoc.find? n'.connect tgt = some from_ := by
   unfold addConnect at h
   split at h
   · simp at h
@@ -73,8 +78,8 @@ theorem connect_never_discards (n n' : Network α) (infrom into : Nat) (h : n.ad
           · simp only [Except.ok.injEq] at h
             subst h
             refine ⟨find?_insert_same _ _ _, ?_⟩
-            intro to from_ hf
-            have hne : into ≠ to := by
+            intro tgt from_ hf
+            have hne : into ≠ tgt := by
               intro e
               subst e
               rw [hf] at hnew
@@ -178,7 +183,7 @@ theorem invertSkips_complete : ∀ (c : List (Nat × Nat)) (a b : Nat),
   | nil => intro m a b; simp
   | cons e rest ih =>
     intro m a b
-    obtain ⟨to, from_⟩ := e
+    obtain ⟨tgt, from_⟩ := e
     simp only [List.foldl_cons]
     rw [ih]
     simp only [List.mem_cons, Prod.mk.injEq]
@@ -198,7 +203,7 @@ theorem invertSkips_complete : ∀ (c : List (Nat × Nat)) (a b : Nat),
           · exact Or.inl (Or.inr h)
           · exact Or.inl (Or.inl h)
           · exact Or.inr h
-    · have hne : ¬ (b = to ∧ a = from_) := fun h => hfa h.2.symm
+    · have hne : ¬ (b = tgt ∧ a = from_) := fun h => hfa h.2.symm
       cases hm : Assoc.find? m from_ with
       | none =>
         simp only [invertStep, hm]
@@ -212,5 +217,39 @@ theorem invertSkips_complete : ∀ (c : List (Nat × Nat)) (a b : Nat),
 /-! non-vacuity: the chain 0→1, 1→2 and the shared source 1→2, 1→3 -/
 example : invertSkips [(1, 0), (2, 1)] = [(0, [1]), (1, [2])] := by decide
 example : invertSkips [(3, 1), (2, 1)] = [(1, [2, 3])] := by decide
+
+
+/-! ### the derivative clause -/
+
+/-- what `backward` adds to the gradient `cur` handed on by source layer `idx` for the connection
+    `idx → target` (`target ≠ idx`): the gradient with respect to the input the target processed,
+    brought to the source's shape -/
+theorem skip_source_receives_target_gradient (len idx target k : Nat) (ig cur gt gt' s : Tensor α)
+    (processed : List (Tensor α)) (hne : target ≠ idx) (hk : checkedSub len target = .ok k)
+    (hg : L.get processed k = .ok gt) (hr : gt.reshape cur.shape = .ok gt') (hs : cur.add gt' = .ok s) :
+    addSkipGradient len idx ig processed (.ok cur) target = .ok s := by
+  simp [addSkipGradient, hne, hk, hg, hr, hs]
+
+/-- a connection from a layer to itself feeds the layer's own input gradient back once more -/
+theorem self_skip_adds_own_gradient (len idx : Nat) (ig cur ig' s : Tensor α) (processed : List (Tensor α))
+    (hr : ig.reshape cur.shape = .ok ig') (hs : cur.add ig' = .ok s) :
+    addSkipGradient len idx ig processed (.ok cur) idx = .ok s := by
+  simp [addSkipGradient, hr, hs]
+
+open VJP in
+/-- **with additive accumulation the gradients remain exact derivatives**: for `head`, `mid`, `tail` of
+    any depths (layers with correct backward functions at the inputs they receive) and an additive
+    skip connection around `mid`, the walk `γ ↦ head.bwd (mid.bwd δ + δ)`, `δ = tail.bwd γ`, is the
+    transposed Jacobian of the network; hence for any differentiable objective every coordinate of the
+    resulting input gradient is the partial derivative (and, by `C01.parameter_gradient`, likewise for
+    the parameters of every layer) -/
+theorem additive_skip_gradient_is_derivative {n m k : ℕ} (head : Net n m) (mid : Net m m) (tail : Net m k) (x : Vec n)
+    (h1 : head.Ok x) (h2 : mid.Ok (head.fwd x)) (h3 : tail.Ok (mid.fwd (head.fwd x) + head.fwd x))
+    (ℓ : Vec k → ℝ) (g : Vec k) (hg : IsGrad ℓ (tail.fwd (mid.fwd (head.fwd x) + head.fwd x)) g) (j : Fin n) :
+    HasDerivAt (fun r => ℓ (tail.fwd (mid.fwd (head.fwd (Function.update x j r)) + head.fwd (Function.update x j r))))
+      (head.bwd x (mid.bwd (head.fwd x) (tail.bwd (mid.fwd (head.fwd x) + head.fwd x) g) +
+        tail.bwd (mid.fwd (head.fwd x) + head.fwd x) g) j) (x j) := by
+  have hv := Net.vjp_with_skip head mid tail x h1 h2 h3
+  exact (IsGrad.comp_vjp hv hg).partial j
 
 end C16
